@@ -375,9 +375,14 @@ func (c *FnCtx) paramVars(s *State) map[string]Val {
 			vars[p.Name()] = v
 		}
 	}
+	// captured variables are cells: their name denotes the cell's content in the state at hand
 	for _, fv := range c.fn.FreeVars {
 		if v, ok := c.entryFrees[fv]; ok {
-			vars[fv.Name()] = v
+			if a := s.ptrAddr(v); a != nil && derefType(v.T) != nil {
+				vars[fv.Name()] = s.pureLoad(a)
+			} else {
+				vars[fv.Name()] = v
+			}
 		}
 	}
 	return vars
